@@ -22,6 +22,8 @@ def cfg_of(cid):
         return _packaged
     key = tuple(cid)
     c = _cfg_cache.get(key)
+    if c is None and cid[0] == 'special':
+        c = special_config()
     if c is None:
         rng = random.Random(cid[1] * 1000003 + 17)
         c = gen.packaged_variant(rng, _packaged) if cid[0] == 'variant' else gen.gen_config(rng)
@@ -36,9 +38,37 @@ def cfg_of(cid):
     return c
 
 
+def special_config():
+    """
+    A hand-written caller configuration that guarantees the rarer legal attribute combinations in every run, whatever
+    the seed: typed variable-length elements (field_length 0 and non-zero), every processor, bits on both sides of 64.
+    """
+    t = gen.DE43_REGEX
+    return {
+        '1': {'field_name': 'Bitmap secondary', 'field_type': 'FIXED', 'field_length': 8},
+        '127': {'field_name': 'fixed text, last bit', 'field_type': 'FIXED', 'field_length': 5},
+        '2': {'field_name': 'text', 'field_type': 'LLVAR', 'field_length': 0},
+        '5': {'field_name': 'decimal LLVAR', 'field_type': 'LLVAR', 'field_length': 0, 'field_python_type': 'decimal'},
+        '6': {'field_name': 'decimal LLLVAR', 'field_type': 'LLLVAR', 'field_length': 0, 'field_python_type': 'decimal'},
+        '7': {'field_name': 'int LLVAR', 'field_type': 'LLVAR', 'field_length': 0, 'field_python_type': 'int'},
+        '8': {'field_name': 'long LLLVAR', 'field_type': 'LLLVAR', 'field_length': 0, 'field_python_type': 'long'},
+        '10': {'field_name': 'decimal fixed', 'field_type': 'FIXED', 'field_length': 9, 'field_python_type': 'decimal'},
+        '11': {'field_name': 'date', 'field_type': 'FIXED', 'field_length': 8, 'field_python_type': 'datetime', 'field_date_format': '%Y%m%d'},
+        '12': {'field_name': 'date default format', 'field_type': 'FIXED', 'field_length': 6, 'field_python_type': 'datetime'},
+        '64': {'field_name': 'int at 64', 'field_type': 'FIXED', 'field_length': 3, 'field_python_type': 'int'},
+        '65': {'field_name': 'text at 65', 'field_type': 'FIXED', 'field_length': 2, 'field_python_type': 'string'},
+        '100': {'field_name': 'pan', 'field_type': 'LLVAR', 'field_length': 0, 'field_processor': 'PAN'},
+        '101': {'field_name': 'pan prefix', 'field_type': 'LLVAR', 'field_length': 0, 'field_processor': 'PAN-PREFIX', 'field_python_type': 'string'},
+        '120': {'field_name': 'icc', 'field_type': 'LLLVAR', 'field_length': 255, 'field_processor': 'ICC'},
+        '122': {'field_name': 'pds b', 'field_type': 'LLLVAR', 'field_length': 0, 'field_processor': 'PDS'},
+        '121': {'field_name': 'pds a', 'field_type': 'LLLVAR', 'field_length': 0, 'field_processor': 'PDS'},
+        '126': {'field_name': 'merchant', 'field_type': 'LLVAR', 'field_length': 0, 'field_processor': 'DE43', 'field_processor_config': t},
+    }
+
+
 def config_ids(ctx, n_gen, n_variant=2):
     base = ctx.seed * 7919
-    return ['packaged'] + [['variant', base + i] for i in range(n_variant)] + [['gen', base + 100 + i] for i in range(n_gen)]
+    return ['packaged', ['special', 0]] + [['variant', base + i] for i in range(n_variant)] + [['gen', base + 100 + i] for i in range(n_gen)]
 
 
 def codecs_for(ctx, extra):
@@ -196,5 +226,7 @@ def describe(msg, cfg):
         t = c.get('field_python_type')
         if t:
             out.append('type:' + t)
+            if c['field_type'] != 'FIXED' and t != 'string':
+                out.append('variable-length:' + t)
         out.append(c['field_type'])
     return out
